@@ -161,9 +161,9 @@ Proof. split; vm_compute; reflexivity. Qed.
     (buckets-1)*spacing_bins + GridSize); both rounded up by upper_power_of_two when RoundPadding is set.
     Products are matched up to ring identities. *)
 From Coq Require Bool.
-From Inovesa Require Model.Kick Model.Bounds Model.ScalingOps Gen.Gen_ScalingZ Proofs.ScalingZP Proofs.ScalingZRP.
+From Inovesa Require Model.Kick Model.Bounds Model.ScalingOps Gen.Gen_ScalingZ Proofs.ScalingZP Proofs.ScalingZFormP.
 Module ScalingFamily.   (* imports and scopes stay local to this block *)
-Import Bool Kick Bounds ScalingOps Gen_ScalingZ ScalingZP ScalingZRP.
+Import Bool Kick Bounds ScalingOps Gen_ScalingZ ScalingZP ScalingZFormP.
 Local Open Scope Z_scope.
 
 Theorem C06_main_spacing_bins_formula :
